@@ -352,7 +352,7 @@ fn selftest(fx: &Fixture) -> (u64, u64) {
 
 pub fn check(tier: Tier) -> i32 {
     let started = Instant::now();
-    let depth = tier.pick(3, 5);
+    let depth = tier.pick(4, 5);
     let types: Vec<Ty> = tier.pick(vec![Ty::PointM, Ty::Polyline, Ty::PolygonZ, Ty::Multipatch], vec![Ty::Point, Ty::PointZ, Ty::Polyline, Ty::PolylineM, Ty::PolygonZ, Ty::MultipointZ, Ty::Multipatch]);
     let mut fxs = vec![];
     for t in &types {
